@@ -8,6 +8,17 @@
 // zero namespaces, namespace tables through the header proto, token maps across
 // rehashes, posting-list headers.
 //
+// Namespace-table sweep (kinds4.go): every record codec that takes a
+// *Namespaces table (CommonPoint, PointReferences, FullPoint, Path, Area,
+// Relation for each primary type, and their Combine*/Marshalled* observers) is
+// additionally enumerated under every equality pattern of the four table
+// entries (15 set partitions: all equal ... all different), with reference
+// lists built relative to the table: references in the primary namespace of
+// the list's own type, of the same type in the namespace of every other type,
+// and of another type in its own primary. A codec that reads or writes any
+// list against the entry of the wrong feature type decodes a different value
+// under the tables in which the two entries differ.
+//
 // Oracle (the statement's own differential): the decoded value equals the
 // encoded one (nil and empty lists are the same value; fields documented as
 // order-insensitive are compared sorted) and Unmarshal returns exactly the
@@ -36,6 +47,9 @@ func main() {
 		ID:    "C11",
 		Level: "exploration",
 		Rule: "Per record kind an exhaustive menu product (lists: every list up to the length bound over the item menu). A case is a block of up to 400 consecutive menu values of one kind; every value is distinct and non-trivial. " +
+			"Kinds named <record>×Namespaces are the namespace-table sweep: for every table of the sweep (every set partition of {point,path,area,relation} into classes of equal entries, class k taking the k-th namespace of a palette) every record of that kind with at most 2 list items in total over its tag and reference-list fields, ordered by total size (quick: 15 tables from one palette {1,2,3,4}; thorough: 30 tables, the second palette {0,8191,2,300} making the point primary equal to the invalid type/namespace); " +
+			"a reference list whose own type is T draws from table-relative items: (T,nss[T]) twice (values 1000, 990), (T,nss[T']) for each other type T', (T+1,nss[T+1]), and at the thorough tier (T,nss[T]) with bit 63 set and (T,foreign namespace); tag items are a References and a ReferencesAndLatLngs value over the point items and a string index. " +
+			"Counters nss-sweep:* give the number of values that carry a reference in the differing namespace of another type / a primary reference under a table with a differing entry. " +
 			"Per value: Marshal at offset 0/5 into 0x00/0xff/0x80-filled buffers (bytes outside [off,off+n) must stay untouched), Unmarshal with trailing garbage and from the exact slice, into a fresh and into a previously used receiver: decoded == encoded and consumed == written. " +
 			"Observers of encoded bytes (MarshalledReference/References/Members/Area/Relation/Tags, PostingListHeaderToken[Equals], MarshalledStringEquals, CombinePointAnd*) are compared with the encoded value.",
 		Assumptions: []string{
@@ -49,6 +63,8 @@ func main() {
 		Build: func(tier string) (kit.Space, string) {
 			thorough := tier == "thorough"
 			kinds := append(append(kindsBasic(thorough), kindsComposite(thorough)...), kindsSpecial(thorough)...)
+			sweep, sweepBound := kindsNamespaceSweep(thorough)
+			kinds = append(kinds, sweep...)
 			var blocks []block
 			bound := ""
 			total := 0
@@ -96,7 +112,7 @@ func main() {
 					r.Sample = map[string]interface{}{"kind": kd.name, "values_in_menu": kd.n, "block": fmt.Sprintf("%d..%d", b.lo, b.hi-1)}
 				}
 				return r
-			}}, fmt.Sprintf("%d values of %d record kinds: %s", total, len(kinds), bound)
+			}}, fmt.Sprintf("%d values of %d record kinds: %s; %s", total, len(kinds), bound, sweepBound)
 		},
 	})
 }
